@@ -79,6 +79,9 @@ def _dim(x):
         rt = current()
         hints = getattr(rt, "size_hints", None)
         if not hints:
+            from .runtime import FC, concretize
+            if FC.active:
+                return concretize(x)             # forking run: one path per size the inputs can produce
             raise Unsupported("array size depends on symbolic data (enumerate what determines it)")
         # the harness knows the size (e.g. number of non-null rows of an enumerated null pattern): checked as an obligation
         rt.check("size_hint", x == hints[0])
@@ -212,7 +215,10 @@ class NPShim:
         else:
             cc = n.cells if isinstance(n, A) else list(n)
             if any(is_sym(c) for c in cc):
-                raise Unsupported("array_split at symbolic offsets")
+                from .runtime import FC, concretize
+                if not FC.active:
+                    raise Unsupported("array_split at symbolic offsets")
+                cc = [concretize(c, 0, L) for c in cc]
             cuts = [int(c) for c in cc]
         bounds = [0] + cuts + [L]
         return [arr[bounds[i]:bounds[i + 1]] for i in _builtin_range(len(bounds) - 1)]
@@ -861,6 +867,26 @@ class FakeSeries(_S):
     def loc(self):
         return _Loc(self)
 
+    def __rmul__(self, o): return self._bin(o, lambda a, b: a * b)
+    def __radd__(self, o): return self._bin(o, lambda a, b: a + b)
+
+    def sort_index(self, **kw):
+        if kw or not isinstance(self.index, LIndex):
+            raise OutsideModel("Series.sort_index with options / without a labelled index")
+        order = _label_order(self.index.labels)
+        return self._rows(order)
+
+    def agg(self, func, *a, **k):
+        return _agg_cells(self.arr, func)
+
+    def drop(self, label, **kw):
+        if kw or not isinstance(self.index, LIndex):
+            raise OutsideModel("Series.drop with options")
+        pos = [i for i, lab in enumerate(self.index.labels) if not (lab == label and isinstance(lab, str) == isinstance(label, str))]
+        if len(pos) == len(self.index.labels):
+            raise KeyError(f"[{label!r}] not found in axis")
+        return self._rows(pos)
+
     def reindex(self, index):
         if not isinstance(self.index, LIndex) or not isinstance(index, LIndex):
             return self
@@ -896,8 +922,55 @@ class _ILoc:
         return o._rows(_select(len(o), _concrete_key(k)))
 
 
+def _label_order(labels):
+    if all(isinstance(x, (int, float)) for x in labels) or all(isinstance(x, str) for x in labels):
+        return sorted(range(len(labels)), key=lambda i: labels[i])
+    raise OutsideModel("sorting an index of mixed label types")
+
+
+def _agg_cells(arr, func):
+    """Series.agg(name) with pandas' skipna=True semantics"""
+    from .values import isnan as _isnan
+    if func == "sum":
+        cells = [ite(_isnan(c), 0.0, c) if arr.dtype.kind == "f" else c for c in arr.cells]
+        from .values import total
+        return total(cells, 0)
+    raise OutsideModel(f"Series.agg({func!r}) on the labelled model")
+
+
 class _Loc(_ILoc):
+    def __setitem__(self, label, value):
+        """obj.loc[new label] = value : enlargement by one row (the only label assignment in the sources' margin code)"""
+        o = self.obj
+        if not isinstance(o.index, LIndex) or not isinstance(label, (str, int, float)):
+            raise OutsideModel(".loc assignment on the labelled model needs a scalar label")
+        if o.index.locate(label) is not None:
+            raise OutsideModel(".loc assignment to an existing label")
+        new_index = LIndex(list(o.index.labels) + [label], o.index.name, o.index.categorical)
+        if isinstance(o, FakeFrame):
+            if not isinstance(value, FakeSeries) or not isinstance(value.index, LIndex) or list(value.index.labels) != list(o.columns):
+                raise OutsideModel("row assignment needs a Series indexed by the column names")
+            for j, c in enumerate(o.columns):
+                v = o.data[c]
+                arr = v.arr if isinstance(v, FakeSeries) else v
+                o.data[c] = FakeSeries(A(list(arr.cells) + [value.arr.cells[j]], arr.dtype), new_index, name=c)
+            o.index = new_index
+        else:
+            cell = value
+            dt = o.arr.dtype if not (o.arr.dtype.kind in "iub" and isinstance(cell, SF)) else real_np.dtype("float64")
+            o.arr = A(list(o.arr.cells) + [cell], dt)
+            o.index = new_index
+
     def __getitem__(self, k):
+        o = self.obj
+        if isinstance(k, (str, int, float)) and not isinstance(k, bool) and isinstance(o.index, LIndex):
+            p = o.index.locate(k)
+            if p is None:
+                raise KeyError(k)
+            if isinstance(o, FakeFrame):
+                return FakeSeries(A([(o.data[c].arr if isinstance(o.data[c], FakeSeries) else o.data[c]).cells[p] for c in o.columns], "float64"),
+                                  LIndex(list(o.columns)), name=k)
+            return o.arr.cells[p]
         key = _concrete_key(k)
         if key[0] != "bool":
             raise OutsideModel(".loc with a non-boolean key")
@@ -927,6 +1000,20 @@ class FakeFrame(_S):
 
     def __contains__(self, name):
         return name in self.data
+
+    def sort_index(self, **kw):
+        if kw or not isinstance(self.index, LIndex):
+            raise OutsideModel("DataFrame.sort_index with options / without a labelled index")
+        return self._rows(_label_order(self.index.labels))
+
+    def agg(self, func, *a, **k):
+        vals = [_agg_cells(v.arr if isinstance(v, FakeSeries) else v, func) for v in self.data.values()]
+        return FakeSeries(A(vals, "float64"), LIndex(list(self.columns)))
+
+    def __truediv__(self, o):
+        if not isinstance(o, FakeFrame) or list(o.columns) != list(self.columns):
+            raise OutsideModel("frame division needs identically labelled frames")
+        return FakeFrame({c: self[c] / o[c] for c in self.columns}, index=self.index)
 
     @property
     def shape(self):
@@ -991,6 +1078,20 @@ class PDShim:
     Index = _IndexFactory
     RangeIndex = FakeRangeIndex
     Categorical = FakeCategorical
+
+    @staticmethod
+    def isna(x):
+        from .values import isnan as _isnan
+        if isinstance(x, FakeSeries):
+            x = x.arr
+        if isinstance(x, A):
+            if x.dtype.kind == "f":
+                return A([_isnan(c) for c in x.cells], "bool")
+            if x.dtype.kind in "iub":
+                return A([False] * len(x), "bool")
+        raise OutsideModel("pd.isna on this kind of object")
+
+    isnull = isna
 
     class MultiIndex(_S):
         def __init__(self, codes=None, levels=None, names=None, **kw):
